@@ -112,6 +112,11 @@ def do_map(cfg, folder, cleanup, fault=None):
     ishapes = gen_map.internal_shapes_arg(spec)
     if variant == "ishape-int-map" and ishapes:
         ishapes = {k: (v[0] if len(v) == 1 else v) for k, v in ishapes.items()}  # a FRESH dict per call, ints for one axis
+    if variant == "shadowed-default":
+        # a root that has a default AND is supplied: the resume compares the pipeline's defaults with the recorded ones
+        r0 = sorted(inputs)[0]
+        with contextlib.redirect_stdout(io.StringIO()):
+            p.update_defaults({r0: [f"d-{e}" for e in inputs[r0]] if isinstance(inputs[r0], list) else f"d-{inputs[r0]}"})
     pre = ""
     if variant == "scoped":  # every name gets the prefix "s." (two root inputs of one scope: file names with dots)
         with contextlib.redirect_stdout(io.StringIO()):
@@ -351,6 +356,8 @@ def configs(tier):
         # variants of how the same run is spelled (user-function faults only; crash points are enumerated on the plain form)
         if pipe == "map2d-partial-full":
             out.append({"pipe": pipe, "storage": "file_array", "start": "fresh", "variant": "scoped", "faults_only": True})
+        if pipe in ("two-maps-reduce", "tuple-zip"):
+            out.append({"pipe": pipe, "storage": "file_array", "start": "fresh", "variant": "shadowed-default", "faults_only": True})
         if pipe in ("generator-outer", "internal-first-reduce"):
             for v in ("ishape-int-pipefunc", "ishape-int-map"):
                 out.append({"pipe": pipe, "storage": "file_array", "start": "fresh", "variant": v, "faults_only": True})
